@@ -61,8 +61,9 @@ def c15(tier):
         mint_h('VHarnessSwapC15', 'swap then checkstate + restore: <= 2 inputs, <= 2 outputs', must_reach=('swap-accepted',)),
     ]
 def c16(tier):
-    return [
-        mint_h('VHarnessMintQuoteC16', 'mint quote: amount/limits full 64 bit; ledger of 2 signature rows + 1 spent row (amounts < 2^63)', must_reach=('mint-quote-accepted', 'mint-quote-refused')),
+    wide = [mint_h('VHarnessMintQuoteC16Wide', 'mint quote: amount/limits full 64 bit; ledger of 2 signature rows + 1 spent row (total issued < 2^62)', must_reach=('mint-quote-accepted', 'mint-quote-refused'), timeout_s=1800)] if tier == 'thorough' else []
+    return wide + [
+        mint_h('VHarnessMintQuoteC16', 'mint quote: amount/limits full 64 bit; ledger of 1 signature row + 1 spent row (total issued < 2^62)', must_reach=('mint-quote-accepted', 'mint-quote-refused')),
         mint_h('VHarnessMeltQuoteC16', 'melt quote: invoice < 2^50 msat, optional MPP, melt limit full 64 bit', must_reach=('melt-quote-accepted', 'melt-quote-refused')),
     ]
 
@@ -80,7 +81,38 @@ def c05(tier):
         hs.append(mint_h('VHarnessMeltC05Polls', 'melt + 2 polls: backend script <= 4 answers', must_reach=('poll-2',), timeout_s=1800))
     return hs
 
+N11_FILES = ['cashu/nuts/nut11/zz_verif_p2pk.go', 'cashu/nuts/nut14/zz_verif_htlc.go']
+def n11_h(name, bounds, **kw):
+    kw.setdefault('summaries', ('nut10',))
+    kw.setdefault('crypto_mode', 'euf')
+    return Harness(name, 'cashu/nuts/nut11', N11_FILES, models=('std', 'crypto', 'json'), bounds=bounds, **kw)
+def c12(tier):
+    hs = [n11_h('VHarnessP2PKSound', 'lock: n_sigs 0..3, 0..1 co-signers, 0..1 refund keys, locktime absent/past/future (symbolic), sigflag any; witness: JSON with 0..3 signatures (garbage / by any lock key or a foreign key / right or wrong message / two nonces) or garbage text',
+                must_reach=('accepted', 'rejected')),
+          n11_h('VHarnessP2PKComplete', 'canonical witness of AddSignatureToInputs for every lock with n_sigs <= 1, 0..2 co-signers, 0..1 refund keys, any locktime', must_reach=('canonical-accepted',)),
+          n11_h('VHarnessSigAllPosition', '1..3 inputs, each plain / SIG_INPUTS / SIG_ALL', must_reach=('checked',))]
+    if tier == 'thorough':
+        hs.append(n11_h('VHarnessP2PKSoundWide', 'as VHarnessP2PKSound with n_sigs 0..4, 0..3 co-signers, 0..2 refund keys, 0..4 signatures', must_reach=('accepted', 'rejected'), timeout_s=3000))
+    return hs
+def n14_h(name, bounds, **kw):
+    kw.setdefault('summaries', ('nut10',))
+    kw.setdefault('crypto_mode', 'euf')
+    return Harness(name, 'cashu/nuts/nut14', N11_FILES, models=('std', 'crypto', 'json'), bounds=bounds, **kw)
+def c13(tier):
+    hs = [n14_h('VHarnessHTLCSound', 'HTLC: hash well-formed/short/garbage, preimage right/other/non-hex/empty; lock n_sigs 0..2, 0..1 listed keys, 0..1 refund keys, any locktime; 0..2 signatures', must_reach=('accepted', 'rejected')),
+          n14_h('VHarnessHTLCComplete', 'canonical witness of AddWitnessHTLC for every lock with n_sigs <= 1, 0..2 listed keys, before the locktime', must_reach=('canonical-accepted',))]
+    if tier == 'thorough':
+        hs.append(n14_h('VHarnessHTLCSoundWide', 'as VHarnessHTLCSound with n_sigs 0..3, 0..3 keys, 0..2 refund keys, 0..3 signatures', must_reach=('accepted', 'rejected'), timeout_s=3000))
+    return hs
+P2PK_ASSUME = COMMON_ASSUME + [
+    'Schnorr signatures as a term algebra: a signature verifies iff it was made by that key over that hash (unforgeability assumed); distinct (key, hash, nonce) give distinct signatures',
+    'keys named by one lock are pairwise distinct (stated in the property design: a lock naming a key twice is outside the claim)',
+    'clock: the locktime is at least 10 s away from now, a harness run takes < 5 s',
+    'nut10 (de)serialisation summarised as an injective constructor (DESIGN.md 4.6)']
+
 PROPS = {
+    'C13': dict(harnesses=c13, level='bounded symbolic verification against a reference predicate written from NUT-14', assumptions=P2PK_ASSUME, outside=['BIP-340 security', 'sha256 collisions (injectivity assumed)']),
+    'C12': dict(harnesses=c12, level='bounded symbolic verification against a reference predicate written from NUT-11 (two implications: accepted => REQ, canonical witness => accepted)', assumptions=P2PK_ASSUME, outside=['BIP-340 security', 'nut10 JSON text format']),
     'C05': dict(harnesses=c05, level='bounded symbolic verification over scripted Lightning answers', assumptions=MINT_ASSUME, outside=['the real LND/CLN adapters (network code); the property is stated at the lightning.Client interface']),
     'C07': dict(harnesses=c07, level='bounded symbolic verification with the crash / fault position as a solver variable', assumptions=MINT_ASSUME + ['one MintDB method call is atomic and durable (SQLite transaction; db.SetMaxOpenConns(1))', 'restart = fresh Mint object over the surviving tables with the same keysets (LoadMint itself: file system, migrations are outside)'], outside=['torn writes inside one SQLite transaction, crashes inside LoadMint/migrations, file-system faults']),
     'C06': dict(harnesses=c06, level='bounded symbolic verification: failure atomicity (whole-database comparison) and implicit-panic obligations on every path', assumptions=MINT_ASSUME, outside=[]),
